@@ -7,6 +7,7 @@ package harness
 
 import (
 	"fmt"
+	"strings"
 	"time"
 
 	"github.com/element-of-surprise/coercion"
@@ -123,7 +124,22 @@ func runResume(rec *recorder, sc *Scenario) error {
 			return fmt.Errorf("shared create: %w", err)
 		}
 		for i := 0; i < k; i++ {
-			if err := writes[i].shifted(age, m.AgeMode).apply(ctx, shared); err != nil {
+			w := writes[i].shifted(age, m.AgeMode)
+			if m.AgeMode == "notchk" {
+				// only the Checks objects and their actions were active recently (a long action watched by continuous checks)
+				w = writes[i]
+				nme := pr.nm.get(w.id)
+				isChk := w.kind == "chk"
+				for _, g := range groupOrder {
+					if strings.Contains(nme, "."+g+".") {
+						isChk = true
+					}
+				}
+				if !isChk {
+					w = w.shifted(age, "")
+				}
+			}
+			if err := w.apply(ctx, shared); err != nil {
 				return fmt.Errorf("shared apply: %w", err)
 			}
 		}
